@@ -62,6 +62,17 @@ static uint64_t produce(uint64_t seed, int variant) {
 }
 struct ThreadArg { uint64_t seed; int variant; uint64_t out; };
 static void *produce_thread(void *v) { ThreadArg *a = (ThreadArg *) v; a->out = produce(a->seed, a->variant); return nullptr; }
+// the same production WITHOUT seeding inside: whatever state the (process-wide) library generator has is used
+static uint64_t produce_noseed(int variant) {
+    Hash h;
+    LweParams *lp = new_LweParams(4 + variant, 1e-5, 0.1); LweKey *lk = new_LweKey(lp); lweKeyGen(lk);
+    h.bytes(lk->key, (size_t) lp->n * 4);
+    LweSample *c = new_LweSample(lp);
+    for (int i = 0; i < 3; i++) { lweSymEncrypt(c, 12345, 1e-5, lk); h.u64(obs::hash_lwe(c, lp->n)); }
+    delete_LweSample(c); delete_LweKey(lk); delete_LweParams(lp);
+    return h.get();
+}
+static void *produce_noseed_thread(void *v) { ThreadArg *a = (ThreadArg *) v; a->out = produce_noseed(a->variant); return nullptr; }
 
 static Plan gen_rand(uint64_t seed, const Op &opts) {
     Rng r(seed);
@@ -120,6 +131,14 @@ static void exec_rand(const Plan &p, RunResult &r) {
             if (h1 != h2) r.v.raise("reseed-differs", "C07.reseed", fmt("re-seeding with the same seed after a history of %d extra encryptions%s produced different keys/ciphertexts", hist, o.geti("thread") ? " (on another thread)" : ""), (int) oi);
             uint64_t h3 = produce(S + 1, variant);
             if (h3 == h1) r.v.raise("seeds-collide", "C07.seeds", "different seeds produced identical keys and ciphertexts", (int) oi);
+            // one process-wide generator: seeding on this thread governs generation on any other thread ...
+            lib_seed(S); uint64_t m1 = produce_noseed(variant);
+            lib_seed(S); ThreadArg b1{S, variant, 0}; { pthread_t th; pthread_create(&th, nullptr, produce_noseed_thread, &b1); pthread_join(th, nullptr); }
+            if (b1.out != m1) r.v.raise("reseed-differs", "C07.reseed-thread", "after seeding on one thread, key generation and encryption on another thread do not reproduce what the seeding thread produces from the same seed", (int) oi);
+            // ... and two threads started one after the other (no re-seeding in between) must not produce the same keys / masks
+            ThreadArg b2{S, variant, 0}; { pthread_t th; pthread_create(&th, nullptr, produce_noseed_thread, &b2); pthread_join(th, nullptr); }
+            if (b2.out == b1.out) r.v.raise("not-fresh", "C07.fresh-threads", "two threads produced identical keys and ciphertexts without re-seeding: masks and keys are not fresh", (int) oi);
+            r.probes.add("cross_thread_seed_checked");
             r.ev.u64(h1); r.ev.u64(h3);
             r.probes.add(fmt("reseed_hist_%s", (hist & 1) ? "odd" : "even"));
             lib_seed(mix64(p.seed, oi));
